@@ -8,6 +8,7 @@
 // harness/reader.rs (sibling module crate::rtps::reader::verif_harness_reader).
 #![allow(dead_code, unused_imports, unused_variables, unused_mut, clippy::all)]
 use ::std;
+use std::panic as stdpanic; // `std::panic` is also a macro: Kani's stub path resolver needs the alias
 use std::sync::{Arc, Mutex};
 
 use super::*;
@@ -168,6 +169,39 @@ pub(crate) fn stub_sync_try_send<T>(
   Ok(())
 }
 
+/// kani::stub target for std::panic::catch_unwind.  MessageReceiver::add_reader (and every map
+/// insert) makes `drop_in_place::<Reader>` reachable (its Occupied arm drops the new Reader).
+/// The Reader owns a mio-extras Timer -> thread JoinHandle -> Packet, whose Drop calls
+/// catch_unwind; Kani 0.68 crashes on the intrinsic behind it (internal compiler error at
+/// kani-compiler/src/intrinsics.rs:243, bisected: `drop(Timer)` alone triggers it).  No Reader
+/// is ever dropped in these harnesses; the stub only keeps that body out of the compilation.
+#[cfg(kani)]
+pub(crate) fn stub_catch_unwind<F: FnOnce() -> R + std::panic::UnwindSafe, R>(f: F) -> std::thread::Result<R> {
+  Ok(f())
+}
+
+/// kani::stub target for Reader::handle_data_msg: records that (and to which Reader) the DATA
+/// was handed over.  The real body (payload Bytes clone/drop through Bytes' vtable, topic cache
+/// insertion) did not finish within 300 s when entered through the MessageReceiver; what the
+/// Reader does with a DATA is decided on the Reader rig (C01/C03).  The liveness signal under
+/// test is sent by the MessageReceiver itself AFTER this call returns.  Natively the real
+/// Reader::handle_data_msg runs.
+#[cfg(kani)]
+pub(crate) static mut DATA_TO: [EntityId; 2] = [EntityId::UNKNOWN; 2];
+pub(crate) static mut DATA_N: usize = 0;
+#[cfg(kani)]
+pub(crate) fn stub_handle_data_msg(this: &mut Reader, data: Data, _flags: BitFlags<DATA_Flags>, _st: &MessageReceiverState) {
+  unsafe {
+    if DATA_N == 0 {
+      DATA_TO[0] = this.entity_id();
+    } else if DATA_N == 1 {
+      DATA_TO[1] = this.entity_id();
+    }
+    DATA_N += 1;
+  }
+  core::mem::forget(data);
+}
+
 // ------------------------------------------------------------------ rig
 #[cfg(kani)]
 const CHAN: usize = 1;
@@ -210,8 +244,9 @@ pub(crate) fn spdp_reader_qos() -> QosPolicies {
 impl MRig {
   /// Register a REAL Reader with the given entity id (built by the Reader rig), with the remote
   /// writers `matched` (rrig::writer_guid(n)) matched.  The other ends of the Reader's channels
-  /// are leaked, i.e. stay connected.  Returns the Reader's topic cache.
-  pub fn add_reader(&mut self, eid: EntityId, qos: QosPolicies, matched: &[u8]) -> Arc<Mutex<crate::structure::dds_cache::TopicCache>> {
+  /// are leaked, i.e. stay connected (nothing of the Reader rig is ever dropped: dropping the last
+  /// handle of a TopicCache runs the Bytes drop glue of every possible cache change symbolically).
+  pub fn add_reader(&mut self, eid: EntityId, qos: QosPolicies, matched: &[u8]) {
     let mut r = rrig::make_rig(qos.clone(), false, GUID::new(rrig::prefix(OWN), eid));
     let mut i = 0;
     while i < matched.len() {
@@ -219,53 +254,11 @@ impl MRig {
       i += 1;
     }
     let _ = r.take_sent();
-    let tc = r.topic_cache.clone();
     // move the Reader out, leak the rest of the Reader rig (receivers, sockets)
     let reader = unsafe { core::ptr::read(&r.reader) };
     core::mem::forget(r);
     core::mem::forget(qos);
-    self.install_reader(eid, reader);
-    tc
-  }
-
-  /// Natively: the real MessageReceiver::add_reader.
-  #[cfg(not(kani))]
-  fn install_reader(&mut self, _eid: EntityId, reader: Reader) {
     self.mr.add_reader(reader);
-  }
-  /// Under Kani the Reader is written straight into the next slot of the (shimmed) reader map.
-  /// Reason: add_reader / any map insert makes `drop_in_place::<Reader>` reachable (the
-  /// Occupied arm drops the new Reader), and Kani 0.68 crashes while compiling that drop glue
-  /// (internal compiler error in kani-compiler/src/intrinsics.rs:243 on the drop glue of
-  /// mio_extras::timer::Timer, which owns a thread JoinHandle; bisected: `drop(Timer)` alone
-  /// triggers it).  `RawMap` mirrors the field list of verif_shim::BTreeMap; the asserts below
-  /// fail loudly should the layouts ever differ.  Readers must be added in ascending EntityId
-  /// order (the shim keeps entries sorted).
-  #[cfg(kani)]
-  fn install_reader(&mut self, eid: EntityId, reader: Reader) {
-    #[allow(dead_code)]
-    struct RawMap {
-      len: usize,
-      slots: [Option<(EntityId, Reader)>; crate::verif_shim::CAP],
-    }
-    assert!(core::mem::size_of::<RawMap>() == core::mem::size_of::<crate::verif_shim::BTreeMap<EntityId, Reader>>());
-    let n = self.mr.available_readers.len();
-    unsafe {
-      let raw = core::ptr::addr_of_mut!(self.mr.available_readers) as *mut RawMap;
-      let item = Some((eid, reader));
-      match n {
-        0 => core::ptr::write(core::ptr::addr_of_mut!((*raw).slots[0]), item),
-        1 => core::ptr::write(core::ptr::addr_of_mut!((*raw).slots[1]), item),
-        _ => {
-          assert!(false, "rig: at most two readers");
-          core::mem::forget(item);
-        }
-      }
-      (*raw).len = n + 1;
-    }
-    assert!(self.mr.available_readers.len() == n + 1);
-    assert!(verif_env::map_is_valid(&self.mr.available_readers), "rig: readers must be added in ascending EntityId order");
-    assert!(self.mr.reader_mut(eid).map(|r| r.entity_id() == eid).unwrap_or(false), "rig: reader not retrievable");
   }
 
   /// What handle_parsed_message does before its submessage loop (security feature off).
@@ -348,21 +341,23 @@ impl MRig {
     );
   }
 
-  /// DATA with a small static payload (CDR_LE header + 4 bytes); content is not the subject.
+  /// DATA without payload and without inline QoS (flags: endianness only).  Which Reader gets
+  /// it and whether a liveness signal follows does not depend on the payload; a payload-carrying
+  /// DATA (even `Bytes::from_static`) made the Writer arm of handle_submessage intractable
+  /// (clone per target Reader + drop of the original go through Bytes' vtable: > 600 s).
   pub fn feed_data(&mut self, writer_id: EntityId, reader_id: EntityId, sn: i64) {
-    static P: [u8; 8] = [0, 1, 0, 0, 42, 0, 0, 0];
     let d = Data {
       reader_id,
       writer_id,
       writer_sn: SequenceNumber::new(sn),
       inline_qos: None,
-      serialized_payload: Some(Bytes::from_static(&P)),
+      serialized_payload: None,
     };
     self.feed(
       SubmessageKind::DATA,
       SubmessageBody::Writer(WriterSubmessage::Data(
         d,
-        BitFlags::<DATA_Flags>::from_flag(DATA_Flags::Data) | DATA_Flags::Endianness,
+        BitFlags::<DATA_Flags>::from_flag(DATA_Flags::Endianness),
       )),
     );
   }
@@ -427,6 +422,8 @@ macro_rules! mr_harness {
     #[cfg_attr(
       kani,
       kani::stub(mio_extras::channel::SyncSender::try_send, stub_sync_try_send),
+      kani::stub(stdpanic::catch_unwind, stub_catch_unwind),
+      kani::stub(Reader::handle_data_msg, stub_handle_data_msg),
       kani::stub(Reader::encode_and_send, crate::rtps::reader::verif_harness_reader::stub_encode_and_send),
       kani::stub(Reader::send_status_change, crate::rtps::reader::verif_harness_reader::stub_send_status_change),
       kani::stub(Reader::send_participant_status, crate::rtps::reader::verif_harness_reader::stub_send_participant_status),
@@ -491,7 +488,7 @@ mr_harness! {
 /// for this participant; never a liveness signal.
 fn c02_mr_acknack_forwarded(8) {
   let mut rig = make_mrig();
-  let _tc = rig.add_reader(user_reader_eid(9), rrig::reliable_qos(), &[1]);
+  rig.add_reader(user_reader_eid(9), rrig::reliable_qos(), &[1]);
   let choice = vk::range_u8(0, 4);
   let base: i64 = vk::any();
   let bits: u32 = vk::any();
@@ -595,7 +592,7 @@ fn feed_choice(rig: &mut MRig, choice: u8, copies: usize) -> bool {
 /// dispatch on concrete entity ids); optionally preceded by INFO_SRC(other source).
 fn liveness_case(choice: u8, copies: usize, info_src: bool) {
   let mut rig = make_mrig();
-  let _tc = rig.add_reader(EntityId::SPDP_BUILTIN_PARTICIPANT_READER, spdp_reader_qos(), &[]);
+  rig.add_reader(EntityId::SPDP_BUILTIN_PARTICIPANT_READER, spdp_reader_qos(), &[]);
   let src0: u8 = vk::any();
   vk::assume(src0 != OWN && src0 != OTHER && src0 != 0);
   let mut src = rrig::prefix(src0);
@@ -623,6 +620,17 @@ fn liveness_case(choice: u8, copies: usize, info_src: bool) {
     assert!(live.n == 0, "DATA from a writer other than the SPDP participant writer produced a liveness signal");
   }
   assert!(acks.n == 0, "a DATA put something on the acknack channel");
+  #[cfg(kani)]
+  unsafe {
+    // routing, observable through the recorder only: SPDP DATA (explicit or UNKNOWN reader id) and
+    // anything addressed explicitly to the SPDP reader is handed to it; the UNKNOWN-addressed
+    // DATA of an unmatched non-SPDP writer is handed to nobody
+    let expect_delivered = if choice == 3 { 0 } else { copies };
+    assert!(DATA_N == expect_delivered, "DATA handed to a wrong number of Readers");
+    if expect_delivered > 0 {
+      assert!(DATA_TO[0] == EntityId::SPDP_BUILTIN_PARTICIPANT_READER, "DATA handed to a wrong Reader");
+    }
+  }
   vk_cover!(live.n == copies || !alive, "signalled");
   vk_cover!(src0 == 200, "some other source");
   rig.finish();
@@ -652,11 +660,3 @@ fn c12_mr_liveness_menu(8) {
   liveness_case(choice, 1, false);
 }
 }
-
-// TMPBISECT
-#[cfg(kani)]
-pub(crate) fn stub_catch_unwind<F: FnOnce() -> R + std::panic::UnwindSafe, R>(f: F) -> std::thread::Result<R> {
-  Ok(f())
-}
-#[cfg_attr(kani, kani::proof, kani::unwind(4), kani::stub(std::panic::catch_unwind, stub_catch_unwind))]
-fn d1() { let t: mio_extras::timer::Timer<u8> = mio_extras::timer::Builder::default().num_slots(2).capacity(2).build(); drop(t); }
